@@ -910,9 +910,13 @@ namespace occa {
     void tokenizer_t::tokenize(tokenVector &tokens,
                                fileOrigin origin_,
                                const std::string &source) {
-      // TODO: Make a string file_t
-      fileOrigin fakeOrigin(*origin_.file,
-                            source.c_str());
+      // The token positions point into the text they were read from and outlive
+      //   this call (macro definitions, stringified and concatenated tokens):
+      //   let a reference-counted file_t own a copy of the text
+      file_t *file = new file_t(origin_.file->filename, source);
+      file->expandedFilename = origin_.file->expandedFilename;
+      fileOrigin fakeOrigin(*file,
+                            file->content.c_str());
 
       tokenizer_t tstream(fakeOrigin);
       // Fill tokens
